@@ -238,7 +238,11 @@ func VF_C03_frame_hashes() {
 	m := hNewDb(2)
 	f, v := vfBytes("field", 0, 2), vfBytes("value", 0, 2)
 	c03Exec(m, "hset", bs("hset"), bs("h"), f, v)
-	switch vfChoice("cmd", 8) {
+	switch vfChoice("cmd", 10) {
+	case 8:
+		c03Exec(m, "hrandfield-count", bs("hrandfield"), bs("h"), bs("2"))
+	case 9:
+		c03Exec(m, "hrandfield-negcount", bs("hrandfield"), bs("h"), bs("-2"))
 	case 0:
 		c03Exec(m, "hget", bs("hget"), bs("h"), f)
 	case 1:
